@@ -5,6 +5,7 @@ CONSTANTS
   Stateless = TRUE
   MaxSlots = 2
   MaxParked = 2
+  StoreModes = {}
 VIEW CoverView
 INVARIANTS NoTimeoutDuringPost ClosedAndForgotten TimerDiscipline
 CHECK_DEADLOCK FALSE
